@@ -235,7 +235,7 @@ def replay_spec(run, m, oracle, zone=None, extra=None):
         "key": C.ev_seq(m, run.dev["dev_key"]),
         "op": run.op,
         "args": run.json_args(m) if run.json_args else [],
-        "replies": [C.ev_seq(m, r).hex() for r in run.replies],
+        "replies": [(C.ev_seq(m, r) if isinstance(r, SymSeq) else bytes(r)).hex() for r in run.replies],
         "clock": te_reads or None,
         "zone": zone,
         "oracle": oracle,
